@@ -41,7 +41,17 @@ def finish (s : St) : String :=
     let r := if s.vcount == c.ft.size then r else
       { r with fails := r.fails.add "walk:count" fun _ => s!"cursor walk visited {s.vcount} nodes, tree has {c.ft.size}" }
     let fields := (c.ft.toList.filter fun f => f.info.fields.any (!·.isEmpty)).length
-    s!"{s.id} corr={r.corrFails.render} judge={r.fails.render} asked={r.asked} ported={r.portCompared} vis={c.ft.size} raw={js.rawNodes} fanout={s.fanout} hiddenvis={js.hiddenWithVisible} alias={js.aliases} extra={js.extras} err={js.errors} missing={js.missing} zerowidth={js.zeroWidth} multiline={js.multiline} fields={fields} sexpok={if (sexpOKKids lang d.root.kids d.root.data.productionId 0 || hasHiddenMissing lang d.root 0) && !(lang.symMeta 0).visible then 1 else 0} stackbad={r.stackBad} anonleafok={if anonLeafOKKids lang d.root.kids d.root.data.productionId 0 then 1 else 0} hiddenextraok={if hiddenExtraOKKids lang d.root.kids d.root.data.productionId 0 then 1 else 0} hiddenmissing={if hasHiddenMissing lang d.root 0 then 1 else 0} kind={s.kind}"
+    -- hypotheses (and conclusion) of parent_spec_partial on every relevant node of this tree, and
+    -- the link parentOnPath = parent in the flattened tree
+    let rootRef : NodeRef := { t := d.root, alias := 0, id := s.rootId, start := d.root.data.padding }
+    let ph := parentHyp lang rootRef
+    let flatBad := ph.parents.foldl (init := 0) fun n (did, pid) =>
+      match c.byId.get? did with
+      | some j => (match (c.ft.node j).parent with
+          | some pj => if (c.ft.node pj).info.id == pid then n else n + 1
+          | none => n + 1)
+      | none => n + 1
+    s!"{s.id} corr={r.corrFails.render} judge={r.fails.render} asked={r.asked} ported={r.portCompared} vis={c.ft.size} raw={js.rawNodes} fanout={s.fanout} hiddenvis={js.hiddenWithVisible} alias={js.aliases} extra={js.extras} err={js.errors} missing={js.missing} zerowidth={js.zeroWidth} multiline={js.multiline} fields={fields} sexpok={if (sexpOKKids lang d.root.kids d.root.data.productionId 0 || hasHiddenMissing lang d.root 0) && !(lang.symMeta 0).visible then 1 else 0} stackbad={r.stackBad} anonleafok={if anonLeafOKKids lang d.root.kids d.root.data.productionId 0 then 1 else 0} hiddenextraok={if hiddenExtraOKKids lang d.root.kids d.root.data.productionId 0 then 1 else 0} hiddenmissing={if hasHiddenMissing lang d.root 0 then 1 else 0} parchk={ph.checked} parzw={ph.zeroWidth} parbad={ph.bad} parflat={flatBad} kind={s.kind}"
   | _, _, _ => s!"{s.id} corr=BADINPUT judge=BADINPUT asked=0"
 
 def step (s : St) (line : String) : IO St := do
